@@ -253,6 +253,24 @@ class Program:
         """Role-based attribute names, then inlining of non-anchor private helpers (hwverif.normalize)."""
         from .normalize import apply_renames, flatten_program, role_renames, split_conditional_returns, unfold_missing_predicates
 
+        from .normalize import trystar_as_try
+
+        stars = trystar_as_try(self)
+        if stars:
+            self.normalisation_log += stars
+            self._reindex()
+        from .normalize import inline_module_constants
+
+        lits = inline_module_constants(self)
+        if lits:
+            self.normalisation_log += lits
+            self._reindex()
+        from .normalize import expand_registry_displays
+
+        regs = expand_registry_displays(self)
+        if regs:
+            self.normalisation_log += regs
+            self._reindex()
         from .normalize import nest_returned_module_functions
 
         nested_ = nest_returned_module_functions(self)
@@ -276,6 +294,12 @@ class Program:
         rer = drop_reraise_only_handlers(self)
         if rer:
             self.normalisation_log += rer
+            self._reindex()
+        from .normalize import small_equivalences
+
+        smalls = small_equivalences(self)
+        if smalls:
+            self.normalisation_log += smalls
             self._reindex()
         from .normalize import explicit_context_protocol_as_with
 
@@ -346,6 +370,10 @@ class Program:
             self._reindex()
             self.absorbed |= {q for q in absorbed if q in self.functions}
             break
+        again_ = small_equivalences(self)  # spellings that only appear once helpers were read in place (`not _is_missing(x)`)
+        if again_:
+            self.normalisation_log += again_
+            self._reindex()
 
     def scan_functions(self):
         """Functions for whole-package scans: helpers whose every call site was inlined are analysed
@@ -613,6 +641,12 @@ class Program:
             if len(sides) == 1:
                 return self.ann_type(mod, sides[0], self_cls)
             return None
+        head_ = ann.value if isinstance(ann, ast.Subscript) else ann
+        if isinstance(head_, ast.Name):
+            # `type _Entries[T] = OrderedDict[Hashable, T]`: an alias of the module stands for what it is defined as
+            alias_ = next((st for st in mod.tree.body if isinstance(st, ast.TypeAlias) and st.name.id == head_.id), None)
+            if alias_ is not None and alias_.value is not ann:
+                return self.ann_type(mod, alias_.value, self_cls)
         if isinstance(ann, ast.Subscript):
             base = self.ann_type(mod, ann.value, self_cls)
             if base is None:
